@@ -6,6 +6,7 @@ use arbitrary::Unstructured;
 use libfuzzer_sys::fuzz_target;
 
 fuzz_target!(|data: &[u8]| {
+    kvh::fuzz_init();
     let mut u = Unstructured::new(data);
     let Ok(t) = u.arbitrary::<(Vec<u8>, u8, Vec<(u8, u8, u8)>)>() else { return };
     let syms: Vec<usize> = t.0.into_iter().take(36).map(|x| (x % 8) as usize).collect();
